@@ -231,7 +231,7 @@ def compile_trees(trees, backend='json', genTexts=False, textFilter=None, order=
         r.ctx[mi.name] = ctx
     r.codegen = cg
     if EXEC is not None and backend in ('json', 'pysnmp'):
-        _exec_hook(trees, idx, extra_symtab, genTexts, textFilter)
+        _exec_hook(trees, idx, extra_symtab, genTexts, textFilter, r.ctx if backend == 'json' else None)
     return r
 
 
@@ -239,7 +239,7 @@ def compile_trees(trees, backend='json', genTexts=False, textFilter=None, order=
 EXEC = None
 
 
-def _exec_hook(trees, idx, extra_symtab, genTexts, textFilter):
+def _exec_hook(trees, idx, extra_symtab, genTexts, textFilter, json_ctx=None):
     from harness import execpy
     st = EXEC
     try:
@@ -249,8 +249,17 @@ def _exec_hook(trees, idx, extra_symtab, genTexts, textFilter):
             trees = deep_realize(trees)                 # pool-restricted symbolic leaves: every pool value is enumerated
             extra_symtab = deep_realize(extra_symtab) if extra_symtab else extra_symtab
             genTexts = bool(deep_realize(genTexts))
+            json_ctx = deep_realize(json_ctx) if json_ctx else json_ctx
     except ImportError:
         pass
+    if json_ctx and 'json' in st.get('aspects', ()):
+        # C03: the TEXT the real template renders is well-formed JSON and decodes to exactly the context the symbolic
+        # conditions inspect (so what they establish about the context holds for the document)
+        d = execpy.json_document_differences([trees[i] for i in idx], extra_symtab, genTexts, textFilter, json_ctx)
+        st['runs'] = st.get('runs', 0) + 1
+        st['diffs'].extend(d)
+        if not [a for a in st['aspects'] if a != 'json']:
+            return
     mine = [trees[i] for i in idx]
     have = set(t[0] for t in mine)
     deps = [CONST_MODTREES[n] for n in (extra_symtab or {}) if n in CONST_MODTREES and n not in have]
